@@ -13,6 +13,24 @@ P = {
  "C05": ("exploration", "property-based testing (proptest): independent re-derivation of the hidden set from the issued string",
          "Generated-input search: for each generated (claims, strategy incl. odd Custom path lists, decoys, format, holder key) the issued string is decoded with an independent codec and compared with the marking model: reconstruction, exact hidden set, clear-text skeleton, reference counts, digest recomputation, _sd_alg, cnf, decoy placement, '$.' refusal.",
          "Custom strategies only with names free of '.'/'[' (the property's precondition). serde_json/base64/sha2 shared with the library.", "DESIGN.md §4 C05"),
+ "C06": ("exploration", "property-based testing (proptest): selection model (expected disclosure multiset) + byte identity; weak-form oracle on arbitrary selections",
+         "Generated-input search over issued SD-JWTs x selections (type-consistent incl. null, shorter/longer arrays, visible claims; and arbitrary JSON) x format x key binding; presentation decoded independently and compared with the selection model: JWT bytes, disclosure multiset, KB-JWT iff requested with this call's nonce/aud/sd_hash, exact compact text.",
+         "Panics on arbitrary selections are C07's subject and ignored here; void when issuance fails.", "DESIGN.md §4 C06"),
+ "C11": ("exploration", "stateful property-based testing (proptest op sequences + interpreter), model-based per-step oracle",
+         "Generated histories (1..8 calls incl. failing ones) on one issuer and on one holder instance; every successful call's output is checked with the exact C05/C06 oracle of that call's own arguments, every call must fail iff a fresh instance would.",
+         "Fresh-instance behaviour is predicted from the argument class.", "DESIGN.md §4 C11"),
+ "C12": ("exploration", "property-based testing (proptest) + per-case statistical test over repeated issuance",
+         "Generated claims x strategy x selection, each issued with decoys on and off: structural decoy invariants on the independently decoded credential, metamorphic equality of holder/verifier results with and without decoys, and an order-leak test over 240 issuances of the same claims with false-alarm probability < 2^-200.",
+         "No holder key (the property's quantifier). Statistical clause as stated in the property.", "DESIGN.md §4 C12"),
+ "C13": ("fault_enumeration", "property-based testing (proptest) over trees with exhaustive planting enumeration per tree",
+         "For each generated claims tree every planting position x {_sd, ...} x strategies is enumerated and must be refused; the unplanted control must not be refused for that reason. Exhaustive per tree, sampled over trees.",
+         "Control refusal recognised by the DataFieldMismatch error text.", "DESIGN.md §4 C13"),
+ "C14": ("exploration", "generated multi-thread histories with invariants over the whole history (distinctness, length, bit frequency, digest recomputation)",
+         "Runs of 1..16 OS threads issuing 4k-60k credentials under AllLevels; all salts and decoy digests of a run compared pairwise (quick: ~6M salts per check), decoded length >= 16 bytes, per-bit frequency within 8 sigma, every disclosure referenced by its recomputed SHA-256 digest.",
+         "Schedules are sampled from the OS scheduler, not enumerated; unpredictability only through statistical symptoms.", "DESIGN.md §4 C14"),
+ "C15": ("exploration", "property-based testing (proptest) over chains of narrowing selections; two call chains must agree with each other and with the selection model",
+         "Generated chains sel1 >= ... >= selk (k<=4) over issued SD-JWTs in both formats: direct presentation of selk vs. k nested holders; equal disclosure multisets (== model) and equal verified claims (== view).",
+         "No KB-JWT in the chain (precondition).", "DESIGN.md §4 C15"),
 }
 
 NOT_YET = {
